@@ -179,6 +179,12 @@ func (ms *Modules) add(n Node) error {
 	mod := n.(*Module)
 	fullName := mod.FullName()
 	mod.Modules = ms
+	if kind == "module" {
+		// What a namespace denotes may change with the new module.
+		ms.nsMu.Lock()
+		ms.byNS = map[string]*Module{}
+		ms.nsMu.Unlock()
+	}
 
 	if fullName == name {
 		// A module without revision files itself under the bare name,
@@ -279,6 +285,12 @@ func (ms *Modules) FindModuleByNamespace(ns string) (*Module, error) {
 		if m.Namespace.Name == ns {
 			switch {
 			case m == found:
+			case found != nil && found.Name == m.Name:
+				// The revisions of one module share its
+				// namespace; it denotes the latest of them.
+				if found.FullName() < m.FullName() {
+					found = m
+				}
 			case found != nil:
 				return nil, fmt.Errorf("namespace %s matches two or more modules (%s, %s)",
 					ns, found.Name, m.Name)
